@@ -1371,7 +1371,17 @@ def _sorted_source(fa, e, at, depth=6):
     if isinstance(e, ast.Attribute) and isinstance(e.value, ast.Name) and e.value.id == "self":
         asg = [s_ for s_ in fa.stmts(ast.Assign) if fa.nodes(s_) and any(A.dotted(t) == "self." + e.attr for t in s_.targets)]
         if len(asg) == 1 and at not in fa.nodes(asg[0]) and fa.cfg.must_pass(fa.nodes(asg[0]), at):
-            return _sorted_source(fa, asg[0].value, fa.nodes(asg[0])[0], depth - 1)
+            r = _sorted_source(fa, asg[0].value, fa.nodes(asg[0])[0], depth - 1)
+            if r is not None:
+                return r
+            v = asg[0].value
+            if isinstance(v, ast.Call) and isinstance(v.func, ast.Name) and v.func.id == "list" and len(v.args) == 1 and not v.keywords:
+                # a list copy kept in the field and sorted in place there (its only change) before this point
+                muts = [c for c in fa.calls() if A.call_recv(c) is not None and A.norm(A.call_recv(c)) == "self." + e.attr and A.call_attr(c) in _LIST_MUTATORS]
+                stores = [x for x in A.walk_body(fa.node) if isinstance(x, ast.Subscript) and isinstance(x.ctx, (ast.Store, ast.Del)) and A.norm(x.value) == "self." + e.attr]
+                if len(muts) == 1 and not stores and A.call_attr(muts[0]) == "sort" and not muts[0].args and not muts[0].keywords and fa.nodes(muts[0]) \
+                        and at not in fa.nodes(muts[0]) and fa.cfg.must_pass(fa.nodes(muts[0]), at) and fa.cfg.must_pass(fa.nodes(asg[0]), fa.nodes(muts[0])[0]):
+                    return (muts[0], v.args[0], fa.nodes(asg[0])[0])
     return None
 
 
